@@ -16,6 +16,7 @@ import (
 	"context"
 	"fmt"
 	"os"
+	"path/filepath"
 	"strings"
 	"sync"
 	"testing"
@@ -66,6 +67,7 @@ type c04Journal struct {
 	released  int
 	refused   int
 	reasked   int
+	unclean   bool // some incarnation did not shut down: its directory is left for the next run's sweep
 	seen      map[string]bool
 }
 
@@ -253,6 +255,9 @@ func c04Incarnation(t *testing.T, conf *cfg.Config, blockDB dbm.DB, j *c04Journa
 		wait = 3 * time.Second
 	}
 	defer func() {
+		if os.Getenv("VERIF_DEBUG") != "" {
+			t.Logf("incarnation crashAt=%d started=%v dead=%v", crashAt, started, receiveRoutineDead)
+		}
 		cs.Stop() //nolint:errcheck
 		if receiveRoutineDead {
 			// the killed receive routine cannot stop the WAL any more; its buffered tail reaches the file
@@ -264,6 +269,7 @@ func c04Incarnation(t *testing.T, conf *cfg.Config, blockDB dbm.DB, j *c04Journa
 			select {
 			case <-stopped:
 			case <-time.After(10 * time.Second):
+				j.unclean = true
 			}
 		}
 	}()
@@ -273,6 +279,7 @@ func c04Incarnation(t *testing.T, conf *cfg.Config, blockDB dbm.DB, j *c04Journa
 			if err != nil {
 				// the node cannot start on what survived (e.g. an unrepairable WAL): liveness, not C04
 				j.note("node failed to start: " + strings.SplitN(err.Error(), "\n", 2)[0])
+				cs.wal.Stop() //nolint:errcheck // OnStart leaves the WAL it opened running when it fails
 				return "start-failed"
 			}
 			started = true
@@ -282,9 +289,13 @@ func c04Incarnation(t *testing.T, conf *cfg.Config, blockDB dbm.DB, j *c04Journa
 				return "stopheight"
 			}
 			return "crashed"
-		case <-newBlockSub.Out():
+		case ev := <-newBlockSub.Out():
 			if crashAt == 0 {
 				return "block"
+			}
+			if d, ok := ev.Data().(types.EventDataNewBlock); ok && d.Block != nil && d.Block.Height > heightToStop {
+				// OnStart repaired a corrupted WAL and re-opened it, dropping the crashing wrapper
+				return "no-crash-wal-reopened"
 			}
 		case <-time.After(wait):
 			if crashAt == 0 {
@@ -318,6 +329,14 @@ func TestVerifC04WAL(t *testing.T) {
 	heightToStop := int64(vg.Scale(1, 3))
 	variants := vg.Scale(3, 6) // per crash index: plain, torn tail, second crash, ...
 	maxIdx := vg.Scale(40, 200)
+	// directories of earlier runs whose node did not shut down in time
+	if old, err := filepath.Glob(filepath.Join(os.TempDir(), "*verif_c04_*")); err == nil {
+		for _, d := range old {
+			if st, err := os.Stat(d); err == nil && time.Since(st.ModTime()) > time.Hour {
+				os.RemoveAll(d)
+			}
+		}
+	}
 	done := false
 	for idx := 1; idx <= maxIdx && !done; idx++ {
 		for v := 0; v < variants; v++ {
@@ -328,7 +347,6 @@ func TestVerifC04WAL(t *testing.T) {
 			r := root.Fork(uint64(idx*16 + v))
 			conf := ResetConfig(fmt.Sprintf("verif_c04_%d_%d", idx, v))
 			func() {
-				defer os.RemoveAll(conf.RootDir)
 				blockDB := dbm.NewMemDB()
 				key := privval.LoadFilePV(conf.PrivValidatorKeyFile(), conf.PrivValidatorStateFile())
 				j := &c04Journal{stateFile: conf.PrivValidatorStateFile(), pub: key.Key.PubKey,
@@ -354,12 +372,17 @@ func TestVerifC04WAL(t *testing.T) {
 					j.restart(why + ", restarted")
 					if v >= 2 { // a second crash shortly after the replay
 						k := 1 + r.Intn(3)
-						if c04Incarnation(t, conf, blockDB, j, k, heightToStop+1, withTxs) == "crashed" {
+						if r2 := c04Incarnation(t, conf, blockDB, j, k, heightToStop+1, withTxs); r2 == "crashed" {
 							crashes++
 							j.restart(fmt.Sprintf("node killed again at WAL write #%d after replay, restarted", k))
+						} else {
+							j.restart("node stopped (" + r2 + "), restarted")
 						}
 					}
 					res = c04Incarnation(t, conf, blockDB, j, 0, 0, withTxs)
+				}
+				if !j.unclean {
+					os.RemoveAll(conf.RootDir)
 				}
 				cs.Count("end/"+res, 1)
 				cs.Count("signer-calls/released", j.released)
